@@ -107,6 +107,7 @@ class Atom(t.NamedTuple):
     text: str
     normal: bool = True  # the tested value is normpath(<loop element>) (or the empty string) on every path
     at: Node | None = None  # node in which the predicate is evaluated when that is not `node` (flag variable)
+    via: Node | None = None  # head of an inner loop over the alternatives (`for sep in <alt seps>: if sep in x: ...`): passed = that loop exhausted
 
     @property
     def evalnode(self) -> Node:
@@ -115,6 +116,12 @@ class Atom(t.NamedTuple):
     @property
     def passlabel(self) -> str:
         return "F" if self.reject == "T" else "T"
+
+    @property
+    def pass_edge(self) -> tuple[Node, str]:
+        """the edge that is taken exactly when the value has passed the test: the other edge of the test node - or,
+        for a test repeated over a table by an inner loop, the exhausted edge of that loop."""
+        return (self.via, "F") if self.via is not None else (self.node, self.passlabel)
 
     def covers(self, what: str) -> bool:
         if what == "abs":  # every string that starts with "/"
@@ -160,6 +167,8 @@ def parse_atom(unit: Unit, e: ast.AST) -> tuple[str, tuple[str, ...], str, ast.N
         a, op, b = e.left, e.ops[0], e.comparators[0]
         if isinstance(op, (ast.Eq, ast.NotEq)) and isinstance(a, ast.Constant) and not isinstance(b, ast.Constant):
             a, b = b, a
+        while isinstance(a, ast.NamedExpr):
+            a = a.value  # `(head := x.split("/", 1)[0]) == ".."`: the comparison is about the bound value
         d = _derived(a)
         if d is not None and isinstance(op, (ast.Eq, ast.NotEq, ast.In, ast.NotIn)):
             cs = _str_consts(b) if not (isinstance(op, (ast.In, ast.NotIn)) and isinstance(b, ast.Constant)) else None
@@ -184,6 +193,12 @@ def parse_atom(unit: Unit, e: ast.AST) -> tuple[str, tuple[str, ...], str, ast.N
         return None
     if isinstance(e, ast.Call):
         f = e.func
+        if isinstance(f, ast.Attribute) and f.attr == "startswith" and len(e.args) == 1 and not e.keywords and isinstance(f.value, ast.BinOp) and isinstance(f.value.op, ast.Add) and isinstance(f.value.left, ast.Name) and isinstance(f.value.right, ast.Constant) and f.value.right.value == "/":
+            # (x + "/").startswith(s + "/"), s without "/":  x == s or x starts with s + "/"  -  the first segment of x is s
+            cs = _str_consts(e.args[0])
+            if cs and all(c.endswith("/") and c[:-1] and "/" not in c[:-1] for c in cs):
+                return "seg0", tuple(c[:-1] for c in cs), "T", f.value.left
+            return None
         if isinstance(f, ast.Attribute) and f.attr == "startswith" and isinstance(f.value, ast.Name) and len(e.args) == 1 and not e.keywords:
             cs = _str_consts(e.args[0])
             if cs:
